@@ -105,6 +105,140 @@ def interactive_writer_kills(ctx: Ctx, quick: bool):
     return bad, nops, nruns
 
 
+FINAL = ".h5out"
+WRITE_FLAGS = ("O_WRONLY", "O_RDWR", "O_CREAT", "O_TRUNC", "O_APPEND")
+
+
+def parse_strace(log, cache):
+    """File-system calls that touch a final name (<cache>/**/<key>.h5out): [(kind, src, dst, flags, ret)]."""
+    import re
+
+    out = []
+    rx_open = re.compile(r'^\d+\s+(openat|open|creat)\((?:AT_FDCWD, )?"([^"]*)"(?:, ([A-Z_|0-9]+))?')
+    rx_ren = re.compile(r'^\d+\s+(rename|renameat|renameat2|link|linkat)\((?:AT_FDCWD, )?"([^"]*)", (?:AT_FDCWD, )?"([^"]*)"')
+    for line in open(log, errors="replace"):
+        if FINAL + '"' not in line:
+            continue
+        ret = line.rsplit("=", 1)[-1].strip() if "=" in line and "unfinished" not in line else "?"
+        m = rx_ren.match(line)
+        if m and m.group(3).endswith(FINAL) and os.path.realpath(m.group(3)).startswith(cache):
+            out.append((m.group(1), m.group(2), m.group(3), "", ret))
+            continue
+        m = rx_open.match(line)
+        if m and m.group(2).endswith(FINAL) and os.path.realpath(m.group(2)).startswith(cache):
+            out.append((m.group(1), None, m.group(2), m.group(3) or "", ret))
+    return out
+
+
+def publication_discipline(ctx: Ctx):
+    """A final name appears in a cache directory only by rename(2) from a name in the SAME directory: traced at system-call level
+    (strace) on real sessions of both modes, with the cache directory and the temporary directory (TMPDIR) on different file
+    systems and on the same one.  This is the model's atomic `publish` label (switch atomicPublish of Lts/Cache.lean, `pPublish`
+    of Lts/FileExec.lean) checked against what the process really asks the kernel to do; os.rename is atomic only within one
+    file system."""
+    env0 = dict(os.environ)
+    env0["PYTHONPATH"] = os.pathsep.join([os.environ.get("VERIF_REPO", "/repo"), os.path.join(VERIF, "harness"), os.path.join(VERIF, "harness", "standins")])
+    shm_ok = os.path.isdir("/dev/shm") and os.access("/dev/shm", os.W_OK) and os.stat("/dev/shm").st_dev != os.stat(tempfile.gettempdir()).st_dev
+    layouts = [("same file system", tempfile.gettempdir(), None)]
+    if shm_ok:
+        layouts += [("cache on tmpfs, TMPDIR on disk", "/dev/shm", None), ("cache on disk, TMPDIR on tmpfs", tempfile.gettempdir(), "/dev/shm")]
+    else:
+        ctx.count("publication.no_second_file_system")
+    bad, traced = [], 0
+    for name, cache_root, tmp_root in layouts:
+        work = tempfile.mkdtemp(prefix="vh_c14p_", dir=cache_root)
+        tdir = tempfile.mkdtemp(prefix="vh_c14t_", dir=tmp_root) if tmp_root else None
+        try:
+            cache = os.path.realpath(os.path.join(work, "cache"))
+            os.makedirs(cache)
+            env = dict(env0)
+            if tdir:
+                env["TMPDIR"] = tdir
+            log, outp = os.path.join(work, "strace.log"), os.path.join(work, "out.json")
+            p = subprocess.Popen(["strace", "-f", "-qq", "-o", log, "-e", "trace=open,openat,creat,rename,renameat,renameat2,link,linkat",
+                                  sys.executable, "-m", "vh.pub_runner", cache, "200000", outp], env=env, cwd=work, stdin=subprocess.DEVNULL,
+                                 stdout=open(os.path.join(work, "o"), "w"), stderr=open(os.path.join(work, "e"), "w"), start_new_session=True)
+            try:
+                p.wait(240)
+            except subprocess.TimeoutExpired:
+                pass
+            try:
+                os.killpg(p.pid, 9)
+            except Exception:  # noqa
+                pass
+            if not os.path.exists(outp):
+                raise InfraError("publication runner did not finish (%s): %s" % (name, open(os.path.join(work, "e")).read()[-300:]))
+            o = json.load(open(outp))
+            if not os.path.realpath(o["pin"]).startswith(os.path.realpath(os.environ.get("VERIF_REPO", "/repo")) + os.sep):
+                raise InfraError("publication runner imported executorlib from " + o["pin"])
+            calls = parse_strace(log, cache)
+            finals = sorted({c[2] for c in calls})
+            if len(finals) < 4:
+                raise InfraError("strace saw fewer than 4 final names (%s): %r" % (name, calls[:6]))
+            ctx.case({"publication_layout": name}, nontrivial=True)
+            ctx.count("publication.layouts")
+            for kind, src, dst, flags, ret in calls:
+                traced += 1
+                if kind in ("open", "openat", "creat"):
+                    if kind == "creat" or any(f in flags.split("|") for f in WRITE_FLAGS):
+                        bad.append({"layout": name, "syscall": kind, "path": dst, "flags": flags, "what": "final name opened for writing"})
+                elif os.path.dirname(os.path.realpath(src)) != os.path.dirname(os.path.realpath(dst)):
+                    bad.append({"layout": name, "syscall": kind, "from": src, "to": dst, "result": ret,
+                                "what": "final name created from another directory (not atomic across file systems)"})
+            ctx.count("publication.final_names", len(finals))
+        finally:
+            shutil.rmtree(work, ignore_errors=True)
+            if tdir:
+                shutil.rmtree(tdir, ignore_errors=True)
+    return bad, traced, layouts
+
+
+def kill_at_first_sight(ctx: Ctx, layout, tries=4):
+    """Failing-input search after a broken publication discipline: a 64 MB result, the session is killed the moment a final name is
+    listed, then every final name is read back with get_output."""
+    import time
+
+    name, cache_root, tmp_root = layout
+    env0 = dict(os.environ)
+    env0["PYTHONPATH"] = os.pathsep.join([os.environ.get("VERIF_REPO", "/repo"), os.path.join(VERIF, "harness"), os.path.join(VERIF, "harness", "standins")])
+    for t in range(tries):
+        work = tempfile.mkdtemp(prefix="vh_c14q_", dir=cache_root)
+        tdir = tempfile.mkdtemp(prefix="vh_c14t_", dir=tmp_root) if tmp_root else None
+        try:
+            cache = os.path.join(work, "cache")
+            ci = os.path.join(cache, "interactive")
+            os.makedirs(ci)
+            env = dict(env0)
+            if tdir:
+                env["TMPDIR"] = tdir
+            p = subprocess.Popen([sys.executable, "-m", "vh.pub_runner", cache, str(96 << 20), os.path.join(work, "out.json")], env=env, cwd=work,
+                                 stdin=subprocess.DEVNULL, stdout=subprocess.DEVNULL, stderr=subprocess.DEVNULL, start_new_session=True)
+            t0 = time.monotonic()
+            seen = set()
+            while time.monotonic() - t0 < 120 and p.poll() is None:
+                now = {f for f in os.listdir(ci) if f.endswith(FINAL)}
+                new = [f for f in now - seen if os.path.getsize(os.path.join(ci, f)) < (90 << 20) and f.startswith("big")]
+                seen = now
+                if new:
+                    break
+            try:
+                os.killpg(p.pid, 9)
+            except Exception:  # noqa
+                pass
+            p.wait()
+            for fn in sorted(os.listdir(ci)):
+                if fn.endswith(FINAL):
+                    ent = fe.read_entry(os.path.join(ci, fn))
+                    if ent.get("error") or not ent.get("ok"):
+                        return {"layout": name, "attempt": t, "file": fn, "size_at_kill": os.path.getsize(os.path.join(ci, fn)), "entry": ent,
+                                "what": "the submitting process was killed while a 96 MB result was being published: a final name holds a partial entry"}
+        finally:
+            shutil.rmtree(work, ignore_errors=True)
+            if tdir:
+                shutil.rmtree(tdir, ignore_errors=True)
+    return None
+
+
 def body(ctx: Ctx):
     if ctx.replay_file:
         hists = [json.load(open(ctx.replay_file))["history"]]
@@ -133,8 +267,33 @@ def body(ctx: Ctx):
     if bad:
         ctx.violation({"kind": "interactive_writer_crash", "failing_input": True},
                       {"what": "the interactive cache writer, killed at this point, leaves an accepted-but-incomplete entry or wedges the restart", "cases": bad[:3]})
+    pbad, ptraced, layouts = publication_discipline(ctx)
+    ctx.oblige("publication discipline at system-call level (strace): in %d layouts of cache directory / TMPDIR a final name (*.h5out) is only "
+               "ever created by rename from the same directory, never opened for writing" % len(layouts), not pbad, "%d calls on final names" % ptraced)
+    if pbad:
+        # layouts in which a final name was opened for writing first (there the entry is visible while it grows)
+        order = [b["layout"] for b in pbad if "opened for writing" in b["what"]] + [b["layout"] for b in pbad]
+        witness = None
+        for lname in dict.fromkeys(order):
+            witness = kill_at_first_sight(ctx, [l for l in layouts if l[0] == lname][0], tries=3)
+            if witness:
+                break
+        if witness:
+            ctx.violation({"kind": "partial_entry_under_final_name", "failing_input": True},
+                          {"what": "a cache entry is not published atomically (theorems atomic_visibility / interactive_cache_crash_safe assume the "
+                                   "model's atomic publish step): killed during publication, the directory holds a final name with a partial "
+                                   "entry", "witness": witness, "system_calls": pbad[:4]})
+        else:
+            ctx.violation({"kind": "publication_discipline", "failing_input": False},
+                          {"what": "correspondence broken, no failing input found: the code no longer publishes a cache entry by rename within "
+                                   "its directory, so the model's atomic publish step (Cache.step create/write/publish with atomicPublish, "
+                                   "FileExec pPublish) is not what the code does", "broken": "system-call trace vs the model's publish label",
+                           "theorems_no_longer_tied": ["ExecModel.C14.atomic_visibility", "ExecModel.C14.interactive_cache_crash_safe"],
+                           "system_calls": pbad[:6]}, no_input=True)
     return {
-        "rule": "kill injection: for each base program (1-3 calls with dependencies) every persistence operation k of the file-mode worker "
+        "publication_layouts": [l[0] for l in layouts], "final_name_syscalls": ptraced,
+        "rule": "publication discipline: both modes run under strace with cache directory and TMPDIR on one and on two file systems - a final "
+                "name appears only by rename within its directory; kill injection: for each base program (1-3 calls with dependencies) every persistence operation k of the file-mode worker "
                 "process(es) and of the submitting process (loop thread) of an uninterrupted run is a kill point (os._exit right after the "
                 "k-th operation), followed by restart sessions (same calls; superset); the interactive cache writer likewise; after each "
                 "kill every *.h5out is read back with get_output; non-trivial = a kill point",
